@@ -252,7 +252,13 @@ def _real_svg_infoset(repo, ob, failure):
     docs = ['<svg xmlns="http://www.w3.org/2000/svg"><text>a &amp; b &lt; c</text></svg>',
             '<svg xmlns="http://www.w3.org/2000/svg"><text>say &quot;hi&quot;</text><rect data-a="x &lt; y"/></svg>',
             '<svg xmlns="http://www.w3.org/2000/svg"><!-- c --><style><![CDATA[ a > b ]]></style><g><text>t</text></g></svg>',
-            '<svg><svg xmlns="http://www.w3.org/2000/svg"><text>a &amp; b</text></svg><rect wh="2"/></svg>']
+            '<svg><svg xmlns="http://www.w3.org/2000/svg"><text>a &amp; b</text></svg><rect wh="2"/></svg>',
+            '<svg xmlns="http://www.w3.org/2000/svg"><text>line one   \n  two  </text></svg>',
+            '<svg xmlns="http://www.w3.org/2000/svg"><text xml:space="preserve">x \n \ny</text></svg>']
+    if any("class" in l for l in (ob.get("labels") or [ob.get("id", "")])):
+        docs = ['<svg xmlns="http://www.w3.org/2000/svg"><rect class="a a  b"/></svg>', '<svg xmlns="http://www.w3.org/2000/svg"><rect class=""/></svg>'] + docs
+    if any(".text.whole" in l for l in (ob.get("labels") or [ob.get("id", "")])):
+        docs = docs[-2:] + docs
     for doc in docs:
         r = run_svgdx(repo, doc)
         if r["rc"] != 0:
